@@ -29,11 +29,17 @@ use crate::constants::BodyFormat;
 use crate::error::RepeError;
 use serde::Serialize;
 use std::borrow::Borrow;
+#[cfg(repe_verif)]
+use crate::verif_seam::collections::HashMap;
+#[cfg(repe_verif)]
+use crate::verif_seam::sync::{Arc, Mutex};
+#[cfg(not(repe_verif))]
 use std::collections::HashMap;
 use std::future::Future;
 use std::hash::Hash;
 use std::pin::Pin;
 use std::sync::atomic::{AtomicU64, Ordering};
+#[cfg(not(repe_verif))]
 use std::sync::{Arc, Mutex};
 
 /// Server-assigned identifier for a connected peer.
@@ -731,6 +737,15 @@ impl PeerRegistry {
         out
     }
 
+    #[cfg(repe_verif)]
+    fn lock(&self) -> crate::verif_seam::sync::MutexGuard<'_, RegistryInner> {
+        match self.inner.lock() {
+            Ok(guard) => guard,
+            Err(poisoned) => poisoned.into_inner(),
+        }
+    }
+
+    #[cfg(not(repe_verif))]
     fn lock(&self) -> std::sync::MutexGuard<'_, RegistryInner> {
         // Recover from poison: every public mutation takes this one lock
         // and leaves the peer map and its alias indices mutually
